@@ -17,7 +17,7 @@ FACILITIES = {
     "epoll-timerfd epoll": [[], ["noppoll"], ["noeventfd2"], ["noeventfd"], ["noppoll", "noeventfd"]],
     "epoll-timerfd epoll ppoll": [[], ["noeventfd2"], ["noeventfd"]],
 }
-RULE = ("fault enumeration: base scenarios (families mix, deadline, churn, lifecycle, tasks, generated without random faults) x 4 poll methods x every "
+RULE = ("fault enumeration: base scenarios (families mix, storm, deadline, churn, lifecycle, tasks, cycles, generated without random faults) x 4 poll methods x every "
         "missing-facility configuration applicable to the method (epoll_pwait2 ENOSYS/EPERM, timerfd_create ENOSYS mid-run, ppoll ENOSYS mid-run, "
         "epoll_create1, eventfd2, eventfd) x EINTR injected at wait call k (quick k=1..3, thorough every k reached); every log replayed through the "
         "Lean machine and all monitors; plus method selection on random IV_EXCLUDE_POLL_METHOD strings x epoll availability against Ivy.L1.Select. "
@@ -95,8 +95,8 @@ def run(tier, seed, proof):
     if not proof["driver_ok"]:
         return res
     rng = random.Random(seed)
-    nb = 4 if tier == "quick" else 40
-    fams = ["mix", "deadline", "churn", "lifecycle", "tasks"]
+    nb = 14 if tier == "quick" else 70
+    fams = ["mix", "storm", "deadline", "churn", "lifecycle", "tasks", "cycles"]
     cases = l1.corpus_cases(PROP)
     for i in range(nb):
         fam = fams[i % len(fams)]
